@@ -221,7 +221,8 @@ func oracleC06(w *polWorld, s *sut.SUT) {
 	if c.AuthPass != "" {
 		clientSecrets[c.AuthPass] = "forwarder basic-auth password"
 	}
-	for sec, what := range clientSecrets {
+	for _, sec := range sortedKeysOf(clientSecrets) {
+		what := clientSecrets[sec]
 		if nodes := w.nodesHolding(sec); len(nodes) > 0 {
 			env.Fail("cred-client-proxy-auth-forwarded", nodes[0], "%s (%q) was found in bytes received by %v", what, sec, nodes)
 		}
@@ -348,7 +349,8 @@ func oracleC06(w *polWorld, s *sut.SUT) {
 
 	// 3. raw scan: every configured secret only where its hop is
 	for _, e := range tab {
-		for node, raw := range w.rawRx {
+		for _, node := range w.rxNodes() {
+			raw := w.rawRx[node]
 			if !bytes.Contains(raw, []byte(e.pass)) && !bytes.Contains(raw, []byte(b64(e.user+":"+e.pass))) {
 				continue
 			}
@@ -362,7 +364,8 @@ func oracleC06(w *polWorld, s *sut.SUT) {
 	if c.Upstream != "" {
 		if u, _ := url.Parse(c.Upstream); u != nil && u.User != nil {
 			p, _ := u.User.Password()
-			for node, raw := range w.rawRx {
+			for _, node := range w.rxNodes() {
+				raw := w.rawRx[node]
 				if node == "proxyA" || node == "proxyB" || node == "socksS" {
 					continue
 				}
